@@ -243,6 +243,28 @@ def c09(run, replay=None):
             r = dict(r, outs=allouts)
             run.violation("nondeterministic: `prog %s` with %r gave %d different outcomes: %s" %
                           (r["usage"], r["argv"], len(allouts), json.dumps(allouts)[:300]), replay_of(r))
+    # documents OUTSIDE the reference model's language that still must be parsed the same way every time: two option
+    # descriptions sharing a short or a long name (K49: the lookup walked a HashSet), the same option described twice
+    # with different kinds, in the section and in the pattern
+    def doc(usage, optlines):
+        return "#!/usr/bin/env rash\n#\n# Usage: prog %s\n#\n# Options:\n%s#\n- debug:\n    msg: x\n" % (usage, "".join("#   %s\n" % l for l in optlines))
+    shared = []
+    for usage in ("[options]", "[options] [<x>]", "[-v] [<x>]", "[options] a [-v]", "[--all] [-o FILE] [<x>]", "[options] (-v | -a)"):
+        for optlines in (["-v --verbose  More.", "-v --version  Version."], ["-v, --verbose  More.", "-v  Short only."], ["-a --all  All.", "-b --all  Also all."],
+                         ["-o FILE --out=FILE  Out.", "-o --other  Other."], ["-v --verbose  More.", "-v LEVEL --level=LEVEL  Level."],
+                         ["--all  All.", "--all=<x>  All of x."], ["-q  Quiet.", "-q  Quiet again [default: 1]."], ["-a --all  All [default: 1].", "-a X --all=X  All [default: 2]."],
+                         ["-v...  Verbose.", "-v --verbose  V."]):
+            for argv in ([], ["-v"], ["--verbose"], ["--version"], ["-v", "--version"], ["-a"], ["-b"], ["--all"], ["-ab"], ["-o", "w"], ["-ow"], ["--other"], ["--out=w"],
+                         ["-v", "w"], ["--level=w"], ["--all=w"], ["-q"], ["-qq"], ["a"], ["a", "-v"], ["-v", "a"], ["w"], ["-v", "w", "a"], ["-vv"], ["-a", "w"]):
+                shared.append((doc(usage, optlines), argv))
+    souts = D.run_impl(shared, repeat=rep)
+    shared_multi = 0
+    for (text, argv), o in zip(shared, souts):
+        if len(list(o)) > 1:
+            shared_multi += 1
+            if shared_multi <= 5:
+                run.violation("nondeterministic: a document whose option descriptions share a name, with %r, gave %d different outcomes: %s" % (argv, len(list(o)), json.dumps(list(o))[:300]),
+                              dict(script=text, argv=argv, outcomes=list(o)))
     # the order in which the code tries the expanded usages (hook) must be the model's canonical sorted
     # order: ties the Coq `sort`/`choose` of Order.v to docopt::parse
     tsel = [r for r in chosen if "ok" in r["outs"][0]]
@@ -273,7 +295,8 @@ def c09(run, replay=None):
              "same enumeration as C07; every pair the implementation or the reference accepts (sampled above a cap) and a sample of rejected pairs is parsed again %d times in one process "
              "(every HashSet gets fresh RandomState keys), in a process different from the first parse; any two differing outcomes are a violation. "
              "non-trivial = re-parsed pairs for which the reference has more than one binding (several usage patterns could match)" % rep,
-             dict(pairs_with_more_than_one_outcome=multi, reparsed_pairs=len(chosen), repeats=rep, usage_orders_checked_against_model=order_checked))
+             dict(pairs_with_more_than_one_outcome=multi, reparsed_pairs=len(chosen), repeats=rep, usage_orders_checked_against_model=order_checked,
+                  documents_with_shared_option_names=len(shared), of_them_nondeterministic=shared_multi))
 
 
 # ---------------------------------------------------------------- C10
